@@ -1070,7 +1070,14 @@ impl<'a> Printer<'a> {
                 self.tok(";");
             }
             SK::Version(v) => {
-                self.tok(&format!("OPENQASM {v}"));
+                // the gap inside the header is white space only (the header is one lexeme of the
+                // reference grammar's version mode); the dense and line layouts vary it
+                let gap = match self.lay.trivia {
+                    Trivia::Dense => *self.r.pick(&[" ", "\t", "\n", "\r\n", "  ", " \n ", "\t\t", "\n\n"]),
+                    Trivia::Lines => "\n",
+                    _ => " ",
+                };
+                self.tok(&format!("OPENQASM{gap}{v}"));
                 self.tok(";");
             }
         }
